@@ -13,7 +13,7 @@ def showCut (r : Option (((List Int) × (List Int)) × (List Int))) : String :=
   | none => "E"
   | some r => s!"{Proto.showInts r.1.2} / {Proto.showInts r.2}"
 
-/-- `gtosubtree | gcutenter | gcutdepth | gcutleave | gcutleaveset pids=.. (rm=.. | d=k | h=k)` on a tree object (ids = positions) -/
+/-- `gtosubtree | gcutenter | gcutdepth | gcutleave | gcutleaveset | gcuttype | gcutorder pids=.. (rm=.. | d=k | h=k | types=.. t=k | m=k)` on a tree object (ids = positions) -/
 def handleCut (what : String) (args : List String) : String :=
   match Proto.argInts args "pids" with
   | none => "bad-args"
@@ -41,6 +41,19 @@ def handleCut (what : String) (args : List String) : String :=
     | "gcutleaveset" => match Proto.argInts args "rm" with     -- user callback: value = subtree size; remove when id ∈ rm
       | some rm => showCut ((cut_tree_leave (σ := Nat) (K := Int)
           (fun calls n ks => (calls + 1, (1 + ks.foldl (· + ·) 0, rm.contains n))) fuel ids pids 0).map (·.2))
+      | none => "bad-args"
+    | "gcuttype" => match Proto.argInts args "types", Proto.argInt args "t" with   -- the GENERATED `CutByType(t).__call__`
+      | some tys, some t => showCut (cut_by_type fuel ids pids tys t)
+      | _, _ => "bad-args"
+    | "gcutorder" => match Proto.argInt args "m" with          -- `CutByFurcationOrder(m).__call__` = `cut_tree(x, enter=self._enter)`: the GENERATED
+      -- `cut_tree` with the GENERATED `_enter` as the user callback (its state: "has not raised")
+      | some m =>
+        match cut_tree_enter (σ := Bool) (T := Int)
+            (fun ok n pv => match order_enter ids pids m n pv with
+              | some r => (ok, r)
+              | none => (false, default)) fuel ids pids true with
+        | some (true, r) => showCut (some r)
+        | _ => "E"
       | none => "bad-args"
     | _ => "bad-op"
 
